@@ -72,6 +72,19 @@ def listInsert {α : Type} (l : List α) (i : Int) (x : α) : List α :=
   let k := clampBound l.length i
   l.take k ++ x :: l.drop k
 
+/-- `l[i] = x` (as a new list): negative positions count from the end; `IndexError` out of range. -/
+def listSet {α : Type} (l : List α) (i : Int) (x : α) : Except String (List α) :=
+  if i < 0 then
+    (if (-i).toNat ≤ l.length then .ok (l.set (l.length - (-i).toNat) x) else .error "IndexError")
+  else (if i.toNat < l.length then .ok (l.set i.toNat x) else .error "IndexError")
+
+/-- A list of optional values all of which are present (`TypeError` if a `None` is left: what a consumer
+of the values would raise). -/
+def allSome {α : Type} : List (Option α) → Except String (List α)
+  | [] => .ok []
+  | none :: _ => .error "TypeError"
+  | some x :: xs => (allSome xs).map (x :: ·)
+
 /-- `enumerate(l)` from a start value. -/
 def enumFrom {α : Type} : Nat → List α → List (Nat × α)
   | _, [] => []
